@@ -26,6 +26,7 @@ def make_chaos(world, b):
                              release_taskgraphs=bool(pol.get("release_taskgraphs")), _flags=b.flags)
             self.inv = 0
             self.stats = {}
+            self.batches = {}  # (strategy signature, worker id) -> [BatchStrategy, {id(task): task}]
 
         def _fits_empty(self, worker, st):
             tot = {}
@@ -43,6 +44,8 @@ def make_chaos(world, b):
             pools = list(worker_pools.worker_pools)
             out = []
             seen = set()
+            for ent in self.batches.values():
+                ent[2] = 0
             for t in offer:
                 if id(t) in seen:
                     continue
@@ -100,6 +103,13 @@ def make_chaos(world, b):
                     delta = r.choice([1, 1, 2, 3, 5])
                     self._n("place_future")
                 wid = w.id if pol.get("ids") else None
+                if r.random() < pol.get("p_batch", 0):
+                    # batched placement: members of one BatchStrategy share one allocation on one
+                    # worker; the same BatchStrategy object is re-used for late members and after the
+                    # batch has drained (never beyond its batch_size: that is refused by contract)
+                    s = self._batch_for(r, s, w, t)
+                    wid = w.id
+                    self._n("place_batched")
                 if st == "SCHEDULED":
                     self._n("replace")
                 out.append(Placement.create_task_placement(
@@ -107,6 +117,30 @@ def make_chaos(world, b):
                     execution_strategy=s))
                 self._n("place")
             return Placements(runtime=self.runtime, true_runtime=US(0), placements=out)
+
+        def _batch_for(self, r, s, w, t):
+            from workload import BatchStrategy
+
+            key = (str(s.resources), _us(s.runtime), s.batch_size, w.id)
+            ent = self.batches.get(key)
+            if ent is not None:
+                live = [m for m in ent[1].values()
+                        if m.state.name not in ("COMPLETED", "CANCELLED")
+                        and (m.current_placement is None or m.current_placement.execution_strategy is ent[0]
+                             or m.state.name in ("VIRTUAL", "RELEASED"))]
+                if len(live) + ent[2] >= s.batch_size or r.random() < 0.15:
+                    ent = None
+                elif not live:
+                    self._n("batch_reused_after_drain")
+                else:
+                    self._n("batch_joined")
+            if ent is None:
+                ent = self.batches[key] = [BatchStrategy(s), {}, 0]
+                self._n("batch_new")
+            if id(t) not in ent[1]:
+                ent[2] += 1  # decisions of this invocation are not visible in task state yet
+            ent[1][id(t)] = t
+            return ent[0]
 
         def _n(self, k):
             self.stats[k] = self.stats.get(k, 0) + 1
